@@ -221,7 +221,29 @@ def selector_table(rep, u, fname="sha2_init"):
     return n
 
 
+def empty_key_rule(rep, fi):
+    """The empty key is a legal HMAC key and callers hand it over as (NULL, 0) (radius.h refuses only NULL with a non-zero
+    length).  memcpy(dst, NULL, 0) is undefined behaviour (the arguments are declared nonnull: the compiler may assume
+    key != NULL afterwards), so the copy of the caller's key is excluded for length 0 by a dominating test."""
+    from rules import r_range
+    n = 0
+    pn = {p["n"] for p in fi.params}
+    for pos, root, c, ps in fi.calls({"memcpy", "memmove"}):
+        src = core.base_ref(c["args"][1])
+        if src is None or src["n"] not in pn or src.get("dk") != "parm":
+            continue
+        n += 1
+        ln_ = core.strip_casts(c["args"][2])
+        ok, why = r_range.excludes_zero(fi, pos, ln_) if ln_.get("k") in ("ref", "mem") else (const_val(ln_) not in (None, 0), "constant")
+        desc = "%s: the copy of the caller's key (%s, %s) is not executed for the empty key" % (fi.name, src["n"], key(ln_))
+        (rep.proved if ok else rep.violated)("R-NULLARG", fi, "empty-key-copy", desc, why if ok else
+                                             "memcpy(%s, %s, %s) is reached with length 0: for the legal empty key (NULL, 0) that is undefined behaviour "
+                                             "(UBSan: null pointer passed as argument 2, declared to never be null)" % (key(c["args"][0])[:20], src["n"], key(ln_)), c.get("ln"))
+    return n
+
+
 def run(rep, tier):
+    nk = 0
     specs = hashes.units(tier, extra_gost=False)
     us = driver.load_units([s for (_, _, s) in specs] + [RADIUS])
     rep.use_units(us)
@@ -242,6 +264,7 @@ def run(rep, tier):
         r_wipe.check_call_on_all_paths(rep, ff, "inner context wiped by " + t["final"], {t["final"]})
         n += 2
         skeleton(rep, h, t, u)
+        nk += empty_key_rule(rep, fi)
         # typestate in every function of the header that touches contexts
         for fn in u.function_list:
             if fn.relfile().startswith("include/crypto/hash/") and not fn.name.endswith("self_test"):
@@ -250,6 +273,7 @@ def run(rep, tier):
                 if ts_hash.check_hmac_must_final(rep, fn):
                     rep.functions.add(fn.name)
     rep.floor("HMAC pad wipe obligations", n, 16)
+    rep.floor("key copies in the HMAC key set-up", nk, 8)
     nsel = 0
     for (h, lab, s_) in specs:
         if h == "sha2":
